@@ -20,7 +20,7 @@ SHOPT = ["nullglob", "dotglob", "extglob"]
 ALIASES = ["a1", "a2"]
 SIGS = ["INT", "USR1", "TERM", "EXIT"]
 DIRS = ["R", "R/a", "R/a/b", "R/c", "..", "a", "b", "c", "nx"]
-CTXS = ["paren", "cmdsub", "backq", "pipe", "stages", "bg", "procsub", "coproc"]
+CTXS = ["paren", "cmdsub", "backq", "pipe", "stages", "bg", "procsub", "coproc", "pl"]
 
 DUMP_FN = r'''D() {
   declare -p v1 2>/dev/null || echo "unset v1"
@@ -112,6 +112,11 @@ def render_ctx(ctx, sub, root):
         s = "cat <( %s ) >$SUBF" % body
     elif ctx == "coproc":
         s = "coproc { %s; }; wait" % "; ".join(ms + ['D "$@" >$SUBF'])
+    elif ctx == "pl":
+        # every mutator is a stage; the last one is the pipeline's last command (the parent's own under lastpipe)
+        # (only `echo` writes anything; `{ exec N>…; } >f` would make brush keep f as the shell's stdout)
+        last = ("{ %s; } >$SUBF" if sub[-1].startswith("ec:") else "{ %s; }") % ms[-1] if ms else "true"
+        s = " | ".join(ms[:-1] + [last])
     else:
         raise ValueError(ctx)
     # `$?` is recorded on the same command line: if anything but a status comes back from the
@@ -344,7 +349,7 @@ ALPHABET = (
     ["as:v1:abc", "as:v1:q", "as:v2:n", "ex:v1", "ex:v2", "ro:r1:z", "un:v1", "un:v2",
      "fn:f1:A", "fn:f1:B", "fn:f2:C", "uf:f1", "uf:f2"]
     + ["so:%s:%d" % (o, b) for o in SETO for b in (1, 0)]
-    + ["sh:%s:%d" % (o, b) for o in SHOPT for b in (1, 0)]
+    + ["sh:%s:%d" % (o, b) for o in SHOPT + ["lastpipe"] for b in (1, 0)]
     + ["al:a1:true", "al:a1:colon", "al:a2:false", "ua:a1", "ua:a2"]
     + ["tr:INT:colon", "tr:USR1:true", "tr:TERM:ign", "tr:EXIT:true", "tr:INT:reset", "tr:TERM:reset", "tr:EXIT:reset"]
     + ["cd:" + d for d in DIRS]
@@ -358,7 +363,41 @@ PRESETS = [
     ["as:v1:abc", "ex:v1", "ro:r1:z", "fn:f1:A", "so:noglob:1", "sh:nullglob:1", "sh:extglob:0", "al:a1:true",
      "tr:INT:colon", "tr:TERM:ign", "tr:EXIT:true", "cd:c12a", "um:027", "ul:512", "sa:x,y", "fd:7:o"],
     ["as:v2:n", "fn:f2:C", "so:nounset:1", "al:a2:false", "tr:USR1:true", "cd:R/c12a/c12b", "sa:z", "fd:8:i", "fd:3:o"],
+    ["sh:lastpipe:1", "as:v1:abc", "fn:f1:A", "al:a1:true", "tr:INT:colon", "cd:c12a", "sa:x,y", "fd:7:o"],
 ]
+
+
+def lastpipe_on(par):
+    on = False
+    for t in par:
+        if t.startswith("sh:lastpipe:"):
+            on = t.endswith(":1")
+    return on
+
+
+def own_filter(c, par, sub, changes, bc, mc):
+    """`m1 | … | mk` with lastpipe on (or a single command): the last stage is the parent's own activity.
+    Returns (changes that are not the parent's own, the mutators that ran in subshells)."""
+    if c != "pl" or not sub or not (lastpipe_on(par) or len(sub) == 1):
+        return changes, sub
+    last, rest = sub[-1], sub[:-1]
+    clean = mc.get("leak", "-") == "-"
+    allowed = set(mc["diff"].split(",")) if (mc["diff"] != "-" and clean) else set()
+    out = []
+    for ch in changes:
+        if ch.startswith("Shell."):
+            key = re.split(r"[.\[]", ch[6:].lstrip("+-~"), 1)[0]
+            if COMP_OF_KEY.get(key, key) in allowed:
+                continue
+        elif ch.startswith("process umask") and last.startswith("um:") and bc["w1"] == mc["w1"]:
+            continue
+        elif ch.startswith("process RLIMIT_NOFILE") and last.startswith("ul:") and bc["w1"] == mc["w1"]:
+            continue
+        out.append(ch)
+    if clean and (bc["par"] != mc["par"] or bc["diff"] != mc["diff"]):
+        out.append("the parent is not `parent before + the last stage's own effects` (a non-final stage leaked, "
+                   "or the last stage's effects were lost)")
+    return out, rest
 
 
 def is_world(tok):
@@ -423,7 +462,7 @@ def canon_model(resp, root):
     if df != "-":
         df = ",".join(sorted(df.split(",")))
     return {"st": d["st"], "sub": unesc(d["sub"]).replace(root, "R"), "par": unesc(d["par"]).replace(root, "R"),
-            "cv": unesc(d["cv"]).replace(root, "R"), "w0": d["w0"], "w1": d["w1"], "diff": df}
+            "cv": unesc(d["cv"]).replace(root, "R"), "w0": d["w0"], "w1": d["w1"], "diff": df, "leak": d.get("leak", "-")}
 
 
 def drv_request(root, ctxname, par, sub):
@@ -434,7 +473,7 @@ def classify_world(changes, sub, ctxname=None):
     """Clause names for a property failure that consists only of recorded defect classes."""
     clauses = set()
     for c in changes:
-        if c.startswith("the parent did not continue") and ctxname == "stages" and \
+        if c.startswith("the parent did not continue") and ctxname in ("stages", "pl") and \
                 any(t.startswith("cd:") or t.startswith("ro:") or t.startswith("un:") for t in sub):
             clauses.add("stage_error_aborts_parent")
             continue
@@ -465,6 +504,14 @@ def gen_cases(ctx):
         for pre in PRESETS:
             for m in ALPHABET:
                 cases.append(("exh1", c, pre, [m]))
+    # pipelines of 2-4 stages with the mutator in each position, lastpipe off and on
+    for n in (2, 3, 4):
+        for pos in range(n):
+            for m in ALPHABET:
+                for pre in (PRESETS[1], PRESETS[3]):
+                    cases.append(("pl", "pl", pre, ["tu"] * pos + [m] + ["tu"] * (n - 1 - pos)))
+    for a, b in itertools.product(ALPHABET[::3], repeat=2):
+        cases.append(("pl2", "pl", PRESETS[3] if (len(a) + len(b)) % 2 else PRESETS[0], [a, b, "tu"][: 2 + (len(a) % 2)]))
     # pairs: (mutator, mutator) for one context each, rotating, rich preset
     pairs = list(itertools.product(ALPHABET, repeat=2))
     step = ctx.size(4, 1)
@@ -482,9 +529,11 @@ def gen_cases(ctx):
     # umask/ulimit out of such pipelines; everything else they do stays in their own clones.
     out = []
     for kind, c, par, sub in cases:
-        if c == "stages" and any(t.startswith(("cd:", "ro:", "un:")) for t in sub) and any(is_world(t) for t in sub):
+        if c in ("stages", "pl") and any(t.startswith(("cd:", "ro:", "un:")) for t in sub) and any(is_world(t) for t in sub):
             sub = [t for t in sub if not is_world(t)]
-        if c == "stages":
+        if c == "pl" and sub and sub[-1].startswith("xi:") and (lastpipe_on(par) or len(sub) == 1):
+            sub = sub[:-1] + ["fa"]          # `exit` as the parent's own last stage would end the parent: not a subshell
+        if c in ("stages", "pl"):
             # builtin stages run as concurrent tasks: two writers of the same process-wide value race
             seen, keep = set(), []
             for t in sub:
@@ -521,8 +570,14 @@ def run_inproc(ctx, root):
                 nviol += 1
                 ctx.violation("harness could not run the case: " + "; ".join(changes), case, kind="correspondence")
             continue
+        if c == "pl" and sub and sub[-1].startswith("fn:") and (lastpipe_on(par) or len(sub) == 1):
+            # the parent redefining a function (even with the same body) changes its recorded source position
+            for dct in (bc, mc):
+                dct["diff"] = ",".join(sorted(set(dct["diff"].split(",")) - {"-"} | {"funcs"}))
         same = all(bc[k] == mc[k] for k in ("st", "sub", "par", "cv", "w0", "w1", "diff"))
-        in_guard = not any(is_world(t) for t in sub) and not (c == "stages" and bc["st"] == "none")
+        changes, sub_in_subshells = own_filter(c, par, sub, changes, bc, mc)
+        sub_all, sub = sub, sub_in_subshells      # classification looks only at what ran in subshells
+        in_guard = not any(is_world(t) for t in sub) and not (c in ("stages", "pl") and bc["st"] == "none")
         if same:
             if changes:
                 cl = classify_world(changes, sub, c)
@@ -838,6 +893,8 @@ def replay(ctx, rp):
             m = lib.run_drv([drv_request(root, c, par, sub)])
             bc, changes = canon_brush(b[0] if b else "<none>", c)
             mc = canon_model(m[0], root)
+            if bc is not None and mc is not None:
+                changes, _ = own_filter(c, par, sub, changes, bc, mc)
             print("brush: ", json.dumps(bc, indent=1))
             print("model: ", json.dumps(mc, indent=1))
             print("parent changes observed on brush:", changes or "none")
